@@ -418,6 +418,7 @@ impl OsIpcSender {
         let (dedicated_tx, dedicated_rx) = channel()?;
         // Extract FD handle without consuming the Receiver, so the FD doesn't get closed.
         fds.push(dedicated_rx.fd.get());
+        let mut dedicated_rx = Some(dedicated_rx);
 
         // Split up the packet into fragments.
         let mut byte_position = 0;
@@ -453,6 +454,11 @@ impl OsIpcSender {
             }
 
             byte_position = end_byte_position;
+
+            // The first fragment has handed the receiver its own descriptor for the dedicated channel.
+            // Close ours: otherwise, if the receiver goes away, this end would keep the dedicated
+            // channel alive, and the followup sends would block forever instead of failing.
+            drop(dedicated_rx.take());
         }
 
         Ok(())
